@@ -40,13 +40,13 @@ macro_rules! floatres {
                 if self.is_finite() && n > 0 {
                     let c0 = (self as f64 * n as f64).round() as i64;
                     for c in (c0 - 2)..=(c0 + 2) {
-                        // the value count/len in the function's own float type; 2 ulps of slack so that an
-                        // algebraically equivalent formula (e.g. count * (1/len)) is not mistaken for a wrong count:
-                        // neighbouring counts are 1/len apart, far more than 2 ulps for every length used here
+                        // the property says "exactly count / length" (and 1 for identical sketches): the value must be the
+                        // correctly rounded quotient in the function's own float type (for a single-precision result the
+                        // double-precision quotient rounded once more is accepted too)
                         if c >= 0 && c <= n as i64 {
                             let q = (c as usize) as $f / n as $f;
-                            let d = (q.to_bits() as i64 - self.to_bits() as i64).abs();
-                            if d <= 2 {
+                            let q2 = ((c as usize) as f64 / n as f64) as $f;
+                            if q.to_bits() == self.to_bits() || q2.to_bits() == self.to_bits() {
                                 return Oc::Value(c);
                             }
                         }
